@@ -150,6 +150,20 @@ def run(ctx, rep):
                "; ".join(bad) if bad else ("unknown instruction between the operands: %s" % unk[:2] if unk else "emitted: %s" % show(seqs[0])), cd.span, fn=cd.path,
                key="C15.parked|%s" % op)
         n += 1
+    # ---- ... and every call argument is parked before the next argument's code starts ------------------------------------------
+    cac = [f for f in F.crates["compiler"].fns if f.path.startswith("<compiler::ast::callable::Callable") and f.path.endswith("as compiler::ast::Compile>::compile")]
+    if cac:
+        per_arg = [g for g in F.closures_of(cac[0]) if g.calls_to("compiler::ast::Compile::compile")]
+        rep.floor("C15.parked per-argument closures of Callable::compile", len(per_arg), 1)
+        for g in per_arg:
+            rows, ex = seqgen.sequences(F, g, [absint.Closure(g.path, [Opaque("cap%d" % i) for i in range(4)]), Opaque("x")])
+            seqs = sorted({tuple(r["value"].items) for r in rows if r["kind"] == "return" and isinstance(r["value"], seqgen.Seq)}, key=show)
+            good = bool(seqs) and not ex and all(len(sq) >= 2 and sq[0][0] == "code" and sq[-1][:2] == ("ins", "store_fast") and
+                                                  all(x[0] == "ins" and x[1] in PARK for x in sq[1:]) and 1 + sum(PARK[x[1]] for x in sq[1:]) == 0 for sq in seqs)
+            rep.ob("C15.parked", "`f(a, b)`: the value of each argument is parked in a register before the code of the next argument runs",
+                   "ok" if good else ("undecided" if (ex or not seqs) else "violated"), "per argument: %s" % [show(sq) for sq in seqs][:2], g.span, fn=g.path,
+                   key="C15.parked|call-arguments")
+            n += 1
     # ---- && / ||: the skip count lands right after the operator's own code ------------------------------------------------
     import opcodes
     from mir import op_local, op_const
